@@ -4,7 +4,7 @@ import json
 KINDS = ["POOL/MAX", "POOL/AVERAGE", "POOL/REDUCE_SUM", "CONV", "DEPTHWISE", "ELEMENTWISE/ADD", "ELEMENTWISE/SUB", "ELEMENTWISE/MUL",
          "ELEMENTWISE/MIN", "ELEMENTWISE/MAX", "ELEMENTWISE/ABS", "ELEMENTWISE/LRELU", "ELEMENTWISE/SHL", "ELEMENTWISE/SHR", "ELEMENTWISE/CLZ"]
 SLICES = ["STRIDED_SLICE", "SPLIT", "SLICE"]
-VAL = ["value_mismatch", "garbage_dependent_output", "gap_uninit_read", "gap_async_uninit_read", "gap_npu_output_not_fully_written", "gap_live_tensor_clobbered"]
+VAL = ["value_mismatch", "garbage_dependent_output", "gap_uninit_read", "gap_async_uninit_read", "gap_unwritten_output_consumed"]
 FAM = {
  "F01-softmax-slice-input": dict(
     what="SOFTMAX whose input is a slice view (STRIDED_SLICE/SPLIT output): softmax.py rebuilds its passes from the parent tensor and drops the read offset/shape, so the NPU reads outside the slice (outside the scratch extent / undefined bytes)",
@@ -14,7 +14,8 @@ FAM = {
  "F02-mean-unit-axis-memcpy": dict(
     what="MEAN over an axis of extent 1 fed by a slice view is lowered to Memcpy (tflite_graph_optimiser.py:2283); dma_feature_map_if_necessary copies the whole parent tensor, overruns the destination / scratch extent and never writes the real output",
     ctx=dict(requires_layers=["MEAN"], requires_any=SLICES),
-    sigs={"C02": ["out_of_extent"], "C03": ["npu_output_not_fully_written", "uninit_read"], "C04": ["final_memory_divergence", "reads_from_divergence"]}),
+    sigs={"C02": ["out_of_extent"], "C03": ["unwritten_output_consumed", "uninit_read"], "C04": ["final_memory_divergence", "reads_from_divergence"],
+          "C10": ["gap_unwritten_output_consumed", "gap_uninit_read"]}),
  "F02b-mean-unit-axis-drops-rescale": dict(
     what="MEAN over an axis of extent 1 whose output quantisation differs from its input: the operator is turned into Memcpy / bypassed (tflite_graph_optimiser.py:2283) and the requantisation the reference kernel performs is lost (output bytes are the input bytes)",
     ctx=dict(requires_layers=["MEAN"], max_layers=8),
@@ -22,7 +23,7 @@ FAM = {
  "F03-reshape-folded-into-producer": dict(
     what="an operator followed by RESHAPE whose shapes are recomputed after the reshape was bypassed (LUT activations, 2x-upscaling resize steps): the OFM takes the reshaped shape while the IFM registers still describe the original tensor, so elements beyond IFM_WIDTH0/HEIGHT0 are fetched through the unused tile bases",
     ctx=dict(requires_layers=["RESHAPE"], max_layers=8),
-    sigs={"C02": ["out_of_extent"], "C03": ["uninit_read", "foreign_read"], "C04": ["reads_from_divergence", "async_uninit_read", "async_foreign_read", "final_memory_divergence", "inflight_conflict"],
+    sigs={"C02": ["out_of_extent"], "C03": ["uninit_read", "foreign_read", "unwritten_output_consumed"], "C04": ["reads_from_divergence", "async_uninit_read", "async_foreign_read", "final_memory_divergence", "inflight_conflict"],
           "C01": VAL, "C10": VAL}),
  "F04-resize-bilinear-hpc-blockdep": dict(
     what="RESIZE_BILINEAR with half_pixel_centers: the 2x2 depthwise steps read one row/column more than npu_op.ifm.shape (edge replication through the tile bases); calc_blockdep clips its first-job IFM volume to ifm.shape, misses the overlap with the producer's last OFM block and programs BLOCKDEP too large",
